@@ -50,4 +50,18 @@ theorem initPool_sizes_eq (page : Nat) (s s' : MP) (sz num : Nat) (hp : 0 < page
         subst h
         exact ⟨rfl, rfl, rfl, rfl, rfl⟩
 
+/-- The loop of `cmi_mempool_expand` that threads a fresh chunk (trip count and stride regenerated from the C AST)
+    takes exactly the `incr_num - 1` steps of `obj_sz / 8` words that the model's `addChunk` passes to `threadLoop` —
+    for EVERY chunk population `incr_num ≥ 1`, in particular for chunks that hold a single object (no link step,
+    only the NULL terminator).  `unsigned` counters: `incr_num < 2^32`, `obj_sz / 8 < 2^32`. -/
+theorem expand_loop_eq (s : MP) (hnum : 0 < s.incrNum) (hn : s.incrNum < 2 ^ 32) (hs : s.objSz / 8 < 2 ^ 32) :
+    expand_links s = s.incrNum - 1 ∧ expand_stride s = s.objSz / 8 := by
+  constructor
+  · simp only [expand_links]
+    first
+      | omega
+      | (simp only [Nat.max_def]; split <;> omega)
+  · simp only [expand_stride]
+    omega
+
 end CimbaModel.Mempool
